@@ -164,6 +164,7 @@ func (ei *resourceInformer) getCachedObjects() []kemtypes.ObjectAndFilterResult 
 		res = append(res, *obj)
 	}
 	ei.cacheLock.RUnlock()
+	verifhook.Yield("ri.getCachedObjects.betweenCopyAndReset", ei.Namespace, ei.Name)
 
 	// Reset eventBuf if needed.
 	if !ei.eventCbEnabled {
@@ -405,6 +406,7 @@ func (ei *resourceInformer) handleWatchEvent(object interface{}, eventType kemty
 			// Pass event info to callback.
 			ei.putEvent(kubeEvent)
 		} else {
+			verifhook.Yield("ri.handleWatchEvent.beforeAppend", ei.Namespace, ei.Name)
 			// Save event in buffer until the callback is enabled.
 			if ei.eventBuf == nil {
 				ei.eventBuf = make([]kemtypes.KubeEvent, 0)
